@@ -101,6 +101,10 @@ func (c *Canon) Val(v reflect.Value, depth int) {
 		c.Val(v.Elem(), depth+1)
 	case reflect.Pointer:
 		if v.IsNil() {
+			if c.NoTypes {
+				c.sb.WriteString("(*)(nil)")
+				return
+			}
 			c.sb.WriteString("(*" + v.Type().Elem().String() + ")(nil)")
 			return
 		}
@@ -129,6 +133,10 @@ func (c *Canon) Val(v reflect.Value, depth int) {
 		c.sb.WriteString("}")
 	case reflect.Slice:
 		if v.IsNil() {
+			if c.NoTypes {
+				c.sb.WriteString("[](nil)")
+				return
+			}
 			c.sb.WriteString(v.Type().String() + "(nil)")
 			return
 		}
